@@ -39,14 +39,24 @@ theorem c20_wingbox_thickness (skin spar : Bool) :
 /-- the tube model never depends on the wingbox keys -/
 theorem c20_tube (a b : Bool) : structModel 0 a b = .ok := by simp [structModel]
 
-/-- **multi-section lists of the wrong length are rejected (ValueError)**, and consistent ones accepted -/
+/-- **multi-section lists of the wrong length are rejected (ValueError)**, and consistent ones accepted: with
+generated meshes every list the generator reads, with user-provided meshes the meshes and every per-section
+parameter list (the list `ny` is then not read at all) -/
 theorem c20_sections (num : Nat) (gen : Bool) (lny lt ls lsw lm ln : Nat) :
     sections num gen lny lt ls lsw lm ln = .ok ↔
-      (if gen then lny = num ∧ lt = num ∧ ls = num ∧ lsw = num ∧ ln = num else lm = num ∧ ln = num) := by
+      (if gen then lny = num ∧ lt = num ∧ ls = num ∧ lsw = num ∧ ln = num
+       else lm = num ∧ ln = num ∧ lt = num ∧ ls = num ∧ lsw = num) := by
   cases gen <;> simp only [sections, Bool.false_eq_true, if_false, if_true]
-  · by_cases h1 : lm = num <;> by_cases h2 : ln = num <;> simp [h1, h2]
+  · by_cases h1 : lm = num <;> by_cases h2 : ln = num <;> by_cases h3 : lt = num <;> by_cases h4 : ls = num <;>
+      by_cases h5 : lsw = num <;> simp [h1, h2, h3, h4, h5]
   · by_cases h1 : lny = num <;> by_cases h2 : lt = num <;> by_cases h3 : ls = num <;> by_cases h4 : lsw = num <;>
       by_cases h5 : ln = num <;> simp [h1, h2, h3, h4, h5]
+
+/-- anything but acceptance is an error: a wrong-length list never produces numbers -/
+theorem c20_sections_rejects (num : Nat) (gen : Bool) (lny lt ls lsw lm ln : Nat)
+    (h : sections num gen lny lt ls lsw lm ln ≠ .ok) : sections num gen lny lt ls lsw lm ln = .valueError := by
+  revert h
+  cases gen <;> simp only [sections, Bool.false_eq_true, if_false, if_true] <;> (repeat' split) <;> simp_all
 
 /-- the keys of the documented surface dictionary (the ones the examples and this framework's generators use) -/
 def documentedKeys : List String := [
